@@ -3,6 +3,8 @@ from rulelib import *
 from facts import op_str
 from report import CheckError
 from fdi import FDI, Const, Agg, Sym, Ref
+import c02
+import table as T
 import c01, c09
 
 EXPLANATION = ("R06.1 open-flag table of the log-file open: write, create, append = config.append, truncate = not config.append; R06.2 the start index is "
@@ -229,21 +231,42 @@ def start_table(R, ctx):
     R.check('R06.5', f"{rb.path}|rotate-flags", not bad and n >= 2, f"{n} rotation-time calls with rotate = true and the stored index", f"rotation: {bad}", where=rb.loc())
     # latest_timestamp_file: rotate -> now; else newest parsable listed timestamp, else now
     lb = ctx.body(r'::timestamps::latest_timestamp_file$')
-    I = FDI(f, effects=[r'^chrono::Local::now$', r'FileSpec::list_of_files$', r'Iterator::reduce$', r'unwrap_or_else$'], no_inline=[r'FileSpec::list_of_files$'])
-    rows = I.run(lb.path)
-    okl = True
-    why = ''
-    for r in rows:
-        names = [e[0].split('::')[-1] for e in r.effects]
+    # rotate = true: the clock, nothing listed
+    I = FDI(f, effects=[r'^chrono::Local::now$', r'FileSpec::list_of_files$'], no_inline=[r'FileSpec::list_of_files$', r'ts_infix_from_path$', r'timestamp_from_ts_infix$'], loop_k=1, max_steps=20000)
+    okl, why, nrot = True, '', 0
+    for r in I.run(lb.path, arg_names=['config', 'rotate', 'fmt']):
         if r.undecided:
-            okl, why = False, r.undecided
-        elif r.get('rotate') is True:
+            raise CheckError(f"R06.5 latest_timestamp_file: UNDECIDED {r.undecided}")
+        if r.get('rotate') is True:
+            nrot += 1
+            names = [e[0].split('::')[-1] for e in r.effects]
             if names != ['now'] or 'now#1' not in repr(r.result):
                 okl, why = False, f"rotate=true: {names} -> {r.result!r}"
-        elif r.get('rotate') is False:
-            if 'list_of_files' not in names or 'reduce' not in r.long(repr(r.result)) and 'reduce' not in ' '.join(names):
-                okl, why = False, f"rotate=false does not take the newest listed timestamp ({names})"
-    R.check('R06.5', f"{lb.path}|table", okl and len(rows) >= 2, "rotate -> now; else the newest listed timestamp (or now)", f"latest_timestamp_file: {why}", where=lb.loc())
+    # rotate = false: the newest parsable listed timestamp, the clock only if there is none (any form: reduce, max, running maximum)
+    TS, TI, NOW = r'timestamp_from_ts_infix$', r'ts_infix_from_path$', r'^chrono::Local::now$'
+
+    def elem_of(x, r):
+        ks = T.eff_indices(x, c02.NEXT)
+        return next(iter(ks)) if len(ks) == 1 else None
+
+    def counts(k, r):
+        for a, v in r.cond:
+            info = r.atom_info.get(a, {})
+            if info.get('kind') == 'variant' and T.eff_indices(info['of'], TS) and k in T.eff_indices(info['of'], c02.NEXT):
+                return v == 'Ok'
+        return False
+
+    def accept(a, v, info, r):
+        if a == 'rotate':
+            return True
+        return info.get('kind') == 'variant' and bool(T.eff_indices(info['of'], TS))
+    if okl:
+        okl, why, nn = c02.max_over_all(ctx, lb, ['config', 'rotate', 'fmt'], [TS, TI, NOW, r'FileSpec::list_of_files$'],
+                                        base=lambda x: bool(T.eff_indices(x, NOW)) and not T.eff_indices(x, TS),
+                                        elem=lambda x, k: bool(T.eff_indices(x, TS)),
+                                        elem_of=elem_of, source=lambda x: bool(T.eff_indices(x, r'FileSpec::list_of_files$')), need_base=True,
+                                        counts=counts, accept_atom=accept, row_ok=lambda r: r.get('rotate') is False, rule='R06.5')
+    R.check('R06.5', f"{lb.path}|table", okl and nrot >= 1, "rotate -> now; else the newest parsable listed timestamp (or now when there is none)", f"latest_timestamp_file: {why}", where=lb.loc())
 
 
 def collision_table(R, ctx):
